@@ -120,6 +120,9 @@ pub enum Fault {
     Kill(u32),
     /// run the registered action (a "peer") immediately before traced call number k, then proceed
     Action(u32),
+    /// traced call number k, if it is a write / copy_file_range, transfers only part of what was
+    /// asked (a short count, as under ENOSPC, quotas or RLIMIT_FSIZE) and reports that count
+    Short(u32),
 }
 
 #[derive(Default)]
@@ -320,12 +323,13 @@ struct Tl {
     app: Cell<bool>,
     budget: Cell<u32>,
     over_budget: Cell<bool>,
+    short_next: Cell<bool>,
 }
 
 thread_local! {
     static TL: Tl = const { Tl {
         world: RefCell::new(None), tid: Cell::new(0), busy: Cell::new(false), op: Cell::new(0),
-        idx: Cell::new(0), steps: Cell::new(0), fault: Cell::new(Fault::None), fault_hit: Cell::new(false), app: Cell::new(false), budget: Cell::new(0), over_budget: Cell::new(false),
+        idx: Cell::new(0), steps: Cell::new(0), fault: Cell::new(Fault::None), fault_hit: Cell::new(false), app: Cell::new(false), budget: Cell::new(0), over_budget: Cell::new(false), short_next: Cell::new(false),
     } };
 }
 
@@ -622,6 +626,13 @@ fn prologue(describe: impl FnOnce(&World) -> Option<Desc>) -> Outcome {
         Fault::Inject(k, e) if k == idx => {
             TL.with(|t| t.fault_hit.set(true));
             Outcome::Fail(w, desc, idx, e)
+        }
+        Fault::Short(k) if k == idx => {
+            TL.with(|t| {
+                t.fault_hit.set(true);
+                t.short_next.set(true);
+            });
+            Outcome::Go(w, desc, idx)
         }
         Fault::Action(k) if k == idx => {
             TL.with(|t| t.fault_hit.set(true));
@@ -922,7 +933,8 @@ pub unsafe extern "C" fn write(fd: c_int, buf: *const c_void, n: size_t) -> ssiz
             -1
         }
         Outcome::Go(w, d, idx) => {
-            let r = real(fd, buf, n);
+            let short = TL.with(|t| t.short_next.replace(false));
+            let r = real(fd, buf, if short && n > 1 { n / 2 } else { n });
             let e = errno();
             epilogue(&w, d, idx, r as i64, e, false, None);
             r
@@ -1009,7 +1021,8 @@ pub unsafe extern "C" fn copy_file_range(fd_in: c_int, off_in: *mut off64_t, fd_
             -1
         }
         Outcome::Go(w, d, idx) => {
-            let r = real(fd_in, off_in, fd_out, off_out, len, flags);
+            let short = TL.with(|t| t.short_next.replace(false));
+            let r = real(fd_in, off_in, fd_out, off_out, if short && len > 1 { (len / 2).min(4096) } else { len }, flags);
             let e = errno();
             if r > 0 {
                 apply_atime_policy(&w, fd_in);
